@@ -5,8 +5,8 @@ namespace Walleye
 variable {σ α β : Type}
 
 /-- partial correctness: if `m` finishes normally from a state satisfying `P`, `Q` holds -/
-def Triple (P : σ → Prop) (m : M σ α) (Q : α → σ → Prop) : Prop :=
-  ∀ s a s', P s → m s = .ok a s' → Q a s'
+structure Triple (P : σ → Prop) (m : M σ α) (Q : α → σ → Prop) : Prop where
+  run : ∀ s a s', P s → m s = .ok a s' → Q a s'
 
 /-- a state invariant kept by `m` whatever the outcome (normal, panic, out of fuel) -/
 def Keeps (I : σ → Prop) (m : M σ α) : Prop :=
@@ -40,12 +40,14 @@ theorem bind_of_fuel {m : M σ α} {f : α → M σ β} {s s' : σ} (h : m s = .
 
 theorem Triple.bind {P : σ → Prop} {m : M σ α} {R : α → σ → Prop} {f : α → M σ β} {Q : β → σ → Prop}
     (h1 : Triple P m R) (h2 : ∀ a, Triple (R a) (f a) Q) : Triple P (m >>= f) Q := by
+  refine ⟨?_⟩
   intro s b s'' hp hb
   obtain ⟨a, s', hm, hf⟩ := bind_ok hb
-  exact h2 a s' b s'' (h1 s a s' hp hm) hf
+  exact (h2 a).run s' b s'' (h1.run s a s' hp hm) hf
 
 theorem Triple.pure {P : σ → Prop} {a : α} {Q : α → σ → Prop} (h : ∀ s, P s → Q a s) :
     Triple P (pure a : M σ α) Q := by
+  refine ⟨?_⟩
   intro s a' s' hp he
   have : (Pure.pure a : M σ α) s = .ok a s := rfl
   rw [this] at he
@@ -54,7 +56,7 @@ theorem Triple.pure {P : σ → Prop} {a : α} {Q : α → σ → Prop} (h : ∀
 
 theorem Triple.weaken {P P' : σ → Prop} {m : M σ α} {Q Q' : α → σ → Prop}
     (h : Triple P m Q) (hp : ∀ s, P' s → P s) (hq : ∀ a s, Q a s → Q' a s) : Triple P' m Q' :=
-  fun s a s' hps he => hq a s' (h s a s' (hp s hps) he)
+  ⟨fun s a s' hps he => hq a s' (h.run s a s' (hp s hps) he)⟩
 
 theorem Triple.ite {P : σ → Prop} {c : Prop} [Decidable c] {m1 m2 : M σ α} {Q : α → σ → Prop}
     (h1 : c → Triple P m1 Q) (h2 : ¬ c → Triple P m2 Q) : Triple P (if c then m1 else m2) Q := by
